@@ -150,7 +150,8 @@ Definition key_full (x : sx) : sx * option bytes :=
                     sbool true;
                     SL (map enc_output (outputs_of p (map get_B (get_L (nth_sx 6 x)))));
                     SL (map enc_pair (p_arguments p));
-                    SL (map SB (compile_args p)) ],
+                    SL (map SB (compile_args p));
+                    SL (map SB (depinfo_args (p_arguments p))) ],
                Some (encode r))
           | _, _, _, _ => (SL [sym "err"], None)
           end
@@ -188,6 +189,10 @@ Definition run_sysroot (x : sx) : sx :=
                      | Some e => snd e | None => [] end in
   SL [sym "ok"; SL (map (fun p => SB (digest_of p)) libs)].
 
+(* ( ((name data) ...) bytes ): the members of a static library -> what is fed to its digest *)
+Definition run_archive (x : sx) : sx :=
+  SL [sym "ok"; SB (archive_preimage (map (fun m => (get_B (nth_sx 0 m), get_B (nth_sx 1 m))) (get_L (nth_sx 0 x)))); sbool true].
+
 Definition dispatch (leg : list N) (x : sx) : sx :=
   if bytes_eqb leg (bs "depinfo") then run_depinfo x
   else if bytes_eqb leg (bs "envdep") then run_envdep x
@@ -197,4 +202,5 @@ Definition dispatch (leg : list N) (x : sx) : sx :=
   else if bytes_eqb leg (bs "keypair") then run_keypair x
   else if bytes_eqb leg (bs "cwdpair") then run_cwdpair x
   else if bytes_eqb leg (bs "sysroot") then run_sysroot x
+  else if bytes_eqb leg (bs "archive") then run_archive x
   else err "unknown leg".
